@@ -17,6 +17,27 @@ def kname_of(t):
     return None
 
 
+def text_identity(prog, R, rule):
+    # ---- C02.5 the text that is lexed is the text that was given: every hand-over of the source text on the way
+    # from the public entry points to the lexer passes its argument on unchanged (no trimming / BOM stripping /
+    # normalisation before lexing: the tree's leaves would spell the transformed text, not the input)
+    HAND = ("oq3_parser::LexedStr::new", "oq3_parser::lexed_str::LexedStr::new", "oq3_syntax::parsing::parse_text", "oq3_syntax::parsing::parse_text_check_lex", "oq3_syntax::SourceFile::parse",
+            "oq3_syntax::SourceFile::parse_check_lex", "oq3_lexer::tokenize", "oq3_lexer::cursor::Cursor::new")
+    nh = 0
+    for k, b in sorted(prog.bodies.items()):
+        if k.startswith("oq3_syntax::ast::make::") or k.startswith("oq3_parser::lexed_str::LexedStr::new"):
+            continue        # make.rs builds synthetic snippets; LexedStr::new slices per token (C14.4)
+        for bi, t in b.calls():
+            c = b.callee_of(t) or ""
+            if c in HAND:
+                nh += 1
+                o = origins(prog, b, t["args"][0], max_depth=8)
+                bad = [x for x in o if not (x[0] == "arg" or (x[0] == "call" and (x[1] or "").endswith(("::as_str", "::deref", "::as_ref", "::borrow", "fs::read_to_string", "::unwrap", "::to_string", "::clone", "Try>::branch"))))]
+                R.ob(rule, f"{short(k)}->{c.split('::')[-2]}::{c.split('::')[-1]}", not bad, t["at"],
+                     "the text argument is passed on unchanged" if not bad else f"the text handed to {c.split('::')[-1]} is not the caller's text: it originates from {sorted(str(x)[:60] for x in bad)[:3]}")
+    R.floor("text hand-over sites", nh, 4)
+
+
 def run(prog, R):
     R.explanation = ("Structural mechanisms of losslessness: the two glue tables (lookahead `nth_at` and consumption `eat`) agree on which kinds are 2- and 3-token "
                      "composites and each composite spells the concatenation of its parts; count identities by provenance (pos advance == n_raw_tokens of the Token event == "
@@ -88,24 +109,7 @@ def run(prog, R):
             ok = ok and len(eqs) == nparts
         R.ob("C02.1-composite-lookahead", fn.split("::")[-1], ok, b.at, det)
 
-    # ---- C02.5 the text that is lexed is the text that was given: every hand-over of the source text on the way
-    # from the public entry points to the lexer passes its argument on unchanged (no trimming / BOM stripping /
-    # normalisation before lexing: the tree's leaves would spell the transformed text, not the input)
-    HAND = ("oq3_parser::LexedStr::new", "oq3_parser::lexed_str::LexedStr::new", "oq3_syntax::parsing::parse_text", "oq3_syntax::parsing::parse_text_check_lex", "oq3_syntax::SourceFile::parse",
-            "oq3_syntax::SourceFile::parse_check_lex", "oq3_lexer::tokenize", "oq3_lexer::cursor::Cursor::new")
-    nh = 0
-    for k, b in sorted(prog.bodies.items()):
-        if k.startswith("oq3_syntax::ast::make::") or k.startswith("oq3_parser::lexed_str::LexedStr::new"):
-            continue        # make.rs builds synthetic snippets; LexedStr::new slices per token (C14.4)
-        for bi, t in b.calls():
-            c = b.callee_of(t) or ""
-            if c in HAND:
-                nh += 1
-                o = origins(prog, b, t["args"][0], max_depth=8)
-                bad = [x for x in o if not (x[0] == "arg" or (x[0] == "call" and (x[1] or "").endswith(("::as_str", "::deref", "::as_ref", "::borrow", "fs::read_to_string", "::unwrap", "::to_string", "::clone", "Try>::branch"))))]
-                R.ob("C02.5-text-identity", f"{short(k)}->{c.split('::')[-2]}::{c.split('::')[-1]}", not bad, t["at"],
-                     "the text argument is passed on unchanged" if not bad else f"the text handed to {c.split('::')[-1]} is not the caller's text: it originates from {sorted(str(x)[:60] for x in bad)[:3]}")
-    R.floor("text hand-over sites", nh, 4)
+    text_identity(prog, R, "C02.5-text-identity")
     R.premises(prog, "C02.2-token-lengths-premise", ["C14:C14.4-", "C14:C14.2-"], "the tree builder slices the input by the token lengths recorded by the converter: they must sum to the input length (C14)")
     # ---- C02.2 count identities
     db = R.anchor(prog, PP + "Parser::do_bump")
